@@ -1,10 +1,10 @@
 (* Properties/C10.v -- C10: the Voigt average is the volume-weighted mean of the rotated
    single-crystal stiffnesses.  Only statements; each is closed by `exact` of a lemma of
-   Proofs_voigt.v.  Model_voigt.voigt_averages follows the source as it is now (stiffness
+   Proofs_voigt.v / Proofs_voigt2.v / Proofs_voigt3.v.  Model_voigt.voigt_averages follows the source as it is now (stiffness
    looked up by phase ordinal); it runs the generated kernels of Gen_tensors. *)
 From Coq Require Import Reals ZArith List Permutation.
 From PV Require Import Num NumR Model_voigt Proofs_tensors_alg Proofs_tensors_rot
-  Proofs_tensors_maps Proofs_tensors_proj Inst_tensors Proofs_voigt Model_decomp Proofs_decomp Proofs_voigt2.
+  Proofs_tensors_maps Proofs_tensors_proj Inst_tensors Proofs_voigt Model_decomp Proofs_decomp Proofs_voigt2 Proofs_voigt3.
 From PV.gen Require Import Gen_tensors.
 Import ListNotations.
 Open Scope R_scope.
@@ -51,18 +51,46 @@ Theorem C10_KG_linear_functionals : forall M : arr NumR,
 Proof. exact KG_formula. Qed.
 
 (* ... and every term of the weighted sum has the moduli of its single crystal, whatever the
-   grain orientation (any A with A A^T = I): the moduli of the average are texture independent.
-   PARTIAL: the final summation step (K(avg) = sum_m phi_m K(C_m) when the fractions sum to one)
-   is not stated as a Coq theorem; it is checked at run time by the property oracle. *)
-Theorem C10_avg_moduli_partial : forall tensors (m : @mineral NumR) i n,
+   grain orientation (any A with A A^T = I) *)
+Theorem C10_grain_moduli : forall tensors (m : @mineral NumR) i n,
   sym6 (m_C tensors m) -> orth (mat3 (transpose3 (g_orient m i n))) ->
   Kof (grain_voigt tensors m i n) = Kof (m_C tensors m) /\
   Gof (grain_voigt tensors m i n) = Gof (m_C tensors m).
 Proof. exact grain_moduli. Qed.
 
+(* avg_moduli, any numbers of snapshots / minerals / grains: if in snapshot i the grain
+   fractions of every mineral sum to one (and the orientations are orthogonal, the stiffness
+   matrices symmetric), the bulk and shear moduli of the averaged matrix are the sums over the
+   mineral list of  phase_fractions[assemblage.index(phase m)] * K (resp. G) of the single
+   crystal of phase m  -- no orientation appears: texture independent.  (The code weights
+   every listed mineral by the fraction of its phase, so this is the exact form; it needs NO
+   assumption on the phase fractions.) *)
+Theorem C10_avg_moduli : forall tensors assemblage phis (ms : list (@mineral NumR)) res,
+  voigt_averages ms assemblage phis tensors = Ok res ->
+  (forall m, In m ms -> sym6 (m_C tensors m)) ->
+  forall i, (i < n_steps ms)%nat ->
+  (forall m n, In m ms -> (n < n_grains ms)%nat -> orth (mat3 (transpose3 (g_orient m i n)))) ->
+  (forall m, In m ms -> rsum (map (fun n => g_frac m i n) (seq 0 (n_grains ms))) = 1) ->
+  Kof (nth i res zeroA) = rsum (map (fun m => m_phi assemblage phis m * Kof (m_C tensors m)) ms) /\
+  Gof (nth i res zeroA) = rsum (map (fun m => m_phi assemblage phis m * Gof (m_C tensors m)) ms).
+Proof. exact avg_moduli. Qed.
+
+(* ... and when the phase fractions of the listed minerals sum to one this is a weighted MEAN:
+   single crystals that share K0, G0 average to exactly K0, G0 *)
+Theorem C10_avg_moduli_mean : forall tensors assemblage phis (ms : list (@mineral NumR)) res K0 G0,
+  voigt_averages ms assemblage phis tensors = Ok res ->
+  (forall m, In m ms -> sym6 (m_C tensors m)) ->
+  forall i, (i < n_steps ms)%nat ->
+  (forall m n, In m ms -> (n < n_grains ms)%nat -> orth (mat3 (transpose3 (g_orient m i n)))) ->
+  (forall m, In m ms -> rsum (map (fun n => g_frac m i n) (seq 0 (n_grains ms))) = 1) ->
+  rsum (map (fun m => m_phi assemblage phis m) ms) = 1 ->
+  (forall m, In m ms -> Kof (m_C tensors m) = K0 /\ Gof (m_C tensors m) = G0) ->
+  Kof (nth i res zeroA) = K0 /\ Gof (nth i res zeroA) = G0.
+Proof. exact avg_moduli_mean. Qed.
+
 (* replacing a grain orientation A by A.Q^T rotates that grain's contribution by Q (for ALL
-   matrices Q).  PARTIAL: the lifting through the (linear) sum is not stated in Coq. *)
-Theorem C10_avg_corotates_partial : forall C o Q : arr NumR, sym6 C ->
+   matrices Q) ... *)
+Theorem C10_grain_corotates : forall C o Q : arr NumR, sym6 C ->
   let C4 := k_voigt_to_elastic_tensor C in
   eq4b (t4 (k_voigt_to_elastic_tensor (k_elastic_tensor_to_voigt
               (k_rotate C4 (transpose3 (matmul3 o (transpose3 Q)))))))
@@ -70,15 +98,72 @@ Theorem C10_avg_corotates_partial : forall C o Q : arr NumR, sym6 C ->
               (k_rotate C4 (transpose3 o)))) Q)).
 Proof. exact grain_corotates. Qed.
 
-(* the order of the mineral list does not matter (the phase order does not matter because
-   both lookups, stiffness by ordinal and fraction by position of the phase, are by identity;
-   PARTIAL: simultaneous permutation of (assemblage, fractions) is not stated in Coq) *)
-Theorem C10_avg_order_independent_partial : forall tensors assemblage phis (ms ms' : list (@mineral NumR)) ng i k,
+(* ... hence avg_corotates: rot_mineral Q m is m with every orientation A (all snapshots, all
+   grains) replaced by A.Q^T.  The call on the re-expressed minerals succeeds whenever the
+   original one does, returns as many matrices, and each is the rotated one:
+   vte(avg') = rotate(vte(avg), Q) on all 81 components -- for every 3x3 matrix Q. *)
+Theorem C10_avg_corotates : forall tensors assemblage phis (ms : list (@mineral NumR)) (Q : arr NumR) res,
+  voigt_averages ms assemblage phis tensors = Ok res ->
+  (forall m, In m ms -> sym6 (m_C tensors m)) ->
+  exists res', voigt_averages (map (rot_mineral Q) ms) assemblage phis tensors = Ok res' /\
+    length res' = length res /\
+    forall i, (i < n_steps ms)%nat ->
+      eq4b (t4 (k_voigt_to_elastic_tensor (nth i res' zeroA)))
+           (t4 (k_rotate (k_voigt_to_elastic_tensor (nth i res zeroA)) Q)).
+Proof. exact avg_corotates. Qed.
+
+Theorem C10_rot_mineral_spec : forall (Q : arr NumR) (m : @mineral NumR),
+  m_phase (rot_mineral Q m) = m_phase m /\ m_ngrains (rot_mineral Q m) = m_ngrains m /\
+  m_fracs (rot_mineral Q m) = m_fracs m /\
+  m_orients (rot_mineral Q m) = map (map (fun A => matmul3 A (transpose3 Q))) (m_orients m).
+Proof. exact rot_mineral_spec. Qed.
+
+(* when does the call succeed: exactly for consistent minerals all of whose innermost
+   expressions evaluate (phase ordinal indexes a tensor, grain indexes in range, phase in the
+   assemblage, its position indexes a fraction) *)
+Theorem C10_avg_ok_iff : forall tensors assemblage phis (ms : list (@mineral NumR)),
+  (exists res, voigt_averages ms assemblage phis tensors = Ok res)
+  <-> consistent ms /\ all_grains_ok tensors assemblage phis ms.
+Proof. exact voigt_ok_iff. Qed.
+
+(* avg_order_independent (1): any permutation of the mineral list -- same success, same
+   number of snapshots, same entries *)
+Theorem C10_avg_order_independent : forall tensors assemblage phis (ms ms' : list (@mineral NumR)) res,
   Permutation ms ms' ->
-  weighted_sum tensors assemblage phis ms ng i k = weighted_sum tensors assemblage phis ms' ng i k.
-Proof. exact weighted_sum_perm. Qed.
+  voigt_averages ms assemblage phis tensors = Ok res ->
+  exists res', voigt_averages ms' assemblage phis tensors = Ok res' /\
+    length res' = length res /\
+    forall i k, (i < n_steps ms)%nat -> (k < 36)%nat -> nth i res' zeroA k = nth i res zeroA k.
+Proof. exact avg_order_independent. Qed.
+
+(* avg_order_independent (2): simultaneous permutation of the phase assemblage and of the
+   phase fractions (phases listed once) -- same success, same entries: the stiffness is found
+   by phase ordinal, the fraction by the position of the phase *)
+Theorem C10_avg_assemblage_order_independent :
+  forall tensors (ass ass' : list Z) (phis phis' : list R) (ms : list (@mineral NumR)) res,
+  NoDup ass -> length ass = length phis -> length ass' = length phis' ->
+  Permutation (combine ass phis) (combine ass' phis') ->
+  voigt_averages ms ass phis tensors = Ok res ->
+  exists res', voigt_averages ms ass' phis' tensors = Ok res' /\
+    length res' = length res /\
+    forall i k, (i < n_steps ms)%nat -> (k < 36)%nat -> nth i res' zeroA k = nth i res zeroA k.
+Proof. exact avg_assemblage_order_independent. Qed.
 
 Example C10_nonvacuous :
   consistent [m_example] /\ is_identity (g_orient m_example 0 0) /\ g_frac m_example 0 0 = 1 /\
   m_phi [0%Z] [1] m_example = 1 /\ orth (mat3 (transpose3 (g_orient m_example 0 0))).
 Proof. exact C10_nonvacuous_proof. Qed.
+
+(* the hypotheses of the aggregate theorems hold together for a succeeding call *)
+Example C10_nonvacuous_aggregate :
+  (exists res, voigt_averages [m_example] [0%Z] [1] [C_example] = Ok res) /\
+  (forall m, In m [m_example] -> sym6 (m_C [C_example] m)) /\
+  (forall m n, In m [m_example] -> (n < n_grains [m_example])%nat ->
+      orth (mat3 (transpose3 (g_orient m 0 n)))) /\
+  (forall m, In m [m_example] ->
+      rsum (map (fun n => g_frac m 0 n) (seq 0 (n_grains [m_example]))) = 1) /\
+  rsum (map (fun m => m_phi [0%Z] [1] m) [m_example]) = 1 /\
+  (0 < n_steps [m_example])%nat /\
+  NoDup [0%Z; 1%Z] /\
+  Permutation (combine [0%Z; 1%Z] [1/4; 3/4]) (combine [1%Z; 0%Z] [3/4; 1/4]).
+Proof. exact C10_nonvacuous_agg_proof. Qed.
